@@ -41,8 +41,8 @@ fn sizes(tier: &str, profile: &str) -> (u64, u64, u64) {
     match (tier, profile) {
         ("quick", "checked") => (200_000, 10, 24),
         ("quick", _) => (60_000, 4, 8),
-        ("thorough", "checked") => (12_000_000, 600, 400),
-        ("thorough", _) => (4_000_000, 200, 100),
+        ("thorough", "checked") => (20_000_000, 1000, 1000),
+        ("thorough", _) => (7_000_000, 350, 350),
         _ => (2_000, 1, 1),
     }
 }
